@@ -49,7 +49,7 @@ const HAZARD_NAMES: &[&str] = &[
 const BMP_NAMES: &[&str] = &["é", "日本", "ключ", "\u{80}", "\u{7ff}", "\u{800}", "\u{ffff}", "\u{fffd}", "ß", "ǅ", "\u{200b}", "e\u{301}"];
 const NONBMP_NAMES: &[&str] = &["😀", "𝒳y", "\u{10000}", "\u{10ffff}", "a😀", "😀n", "\u{1f600}\u{1f601}"];
 const LOOKALIKE_NAMES: &[&str] = &["_sd2", "_SD", "..", "....", "sd_hash", "_sd_al", "_sd_alg2", "_sd ", " _sd", "__sd", "_sd_", "…", "sd", "_s", "alg", "typ", "_sdalg"];
-const JWT_NAMES: &[&str] = &["iss", "exp", "aud", "sub", "nbf", "cnf", "jwk", "iat", "jti", "nonce"];
+const JWT_NAMES: &[&str] = &["iss", "exp", "aud", "sub", "nbf", "cnf", "jwk", "iat", "jti", "nonce", "vct", "kid", "typ", "alg", "sd_hash", "status"];
 const DOTTED_NAMES: &[&str] = &["a.b", "a[0]", "[0]", "x.", ".y", "a.", ".", "[", "a[", "[]", "a.[0]", "$.a", "[1,2]", "[1, 2]", "[ ]", "1.0", "[\"s\", \"n\", 1]"];
 
 pub fn name_strategy(cfg: ClaimCfg) -> BoxedStrategy<String> {
@@ -189,6 +189,20 @@ pub fn value_strategy(cfg: ClaimCfg, depth: u32) -> BoxedStrategy<Value> {
         prop_oneof![
             4 => vec((name_strategy(cfg), inner.clone()), 0..6).prop_map(|kv| Value::Object(kv.into_iter().collect())),
             3 => vec(inner.clone(), 0..6).prop_map(Value::Array),
+            // arrays / objects with EQUAL siblings (same container value at two positions or
+            // under two names): whatever is derived per element must not be shared between them
+            1 => (inner.clone(), inner.clone(), 0u8..4).prop_map(|(v, w, k)| match k {
+                0 => Value::Array(vec![v.clone(), w, v]),
+                1 => Value::Array(vec![v.clone(), v]),
+                2 => Value::Array(vec![Value::Array(vec![v.clone()]), w, Value::Array(vec![v])]),
+                _ => {
+                    let mut m = Map::new();
+                    m.insert("twin1".into(), v.clone());
+                    m.insert("mid".into(), w);
+                    m.insert("twin2".into(), v);
+                    Value::Object(m)
+                }
+            }),
             // prefix-sharing sibling names on purpose
             2 => (select(&[("a", "ab"), ("a", "a1"), ("k", "k0"), ("a1", "a10"), ("x", "xy"), ("A", "Ab")][..]), inner.clone(), inner.clone())
                 .prop_map(|((k1, k2), v1, v2)| {
@@ -214,7 +228,7 @@ pub fn value_strategy(cfg: ClaimCfg, depth: u32) -> BoxedStrategy<Value> {
     .boxed()
 }
 
-const ISS_VALUES: &[&str] = &["https://example.com/issuer", "i", "", "issuer-A", "发行者", "iss😀", "https://issuer.example/\"q\"", "a b"];
+const ISS_VALUES: &[&str] = &["https://example.com/issuer", "https://issuer.example/", "https://issuer.example", "i", "", "issuer-A", "发行者", "iss😀", "https://issuer.example/\"q\"", "a b"];
 
 /// Top-level claims object: string `iss`, integer `exp` in 2033..2100, optional `iat` / `sub` /
 /// `nbf`; never top-level `aud`, non-string `sub`, non-numeric `nbf` (C01's JWT-layer exclusions).
@@ -299,6 +313,14 @@ pub fn claims_strategy(cfg: ClaimCfg) -> BoxedStrategy<Value> {
             }
             if let Some(n) = nbf {
                 fixed.push(("nbf".into(), Value::from(n)));
+            }
+            // now and then the credential is shaped like an SD-JWT VC (a visible `vct`, a `status`
+            // object): profile-specific claims are ordinary claims to this library
+            if order % 11 == 0 && !kv.iter().any(|(k, _)| k == "vct") {
+                fixed.push(("vct".into(), Value::String("https://credentials.example/identity_credential".into())));
+                if order % 22 == 0 && !kv.iter().any(|(k, _)| k == "status") {
+                    fixed.push(("status".into(), serde_json::json!({"status_list": {"idx": 7, "uri": "https://issuer.example/statuslists/1"}})));
+                }
             }
             // interleave the fixed members at positions derived from `order`
             let mut o = order;
